@@ -371,6 +371,9 @@ func gen(r *hlib.Rand, n int, tier, profile string, emit func(string, ...any)) {
 			for k := r.Range(3, 10); k > 0; k-- {
 				pi := r.Intn(len(w.Peers))
 				p, inc := w.GenPacket(r, w.Peers[pi])
+				if pr, ok := w.GenProbe(r); ok && r.Chance(1, 3) {
+					pi, p, inc = pr.Peer, pr.P, pr.Incoming
+				}
 				emit("match p%d %s %s", pi, fwlib.Dir(inc), fwlib.PacketTokens(p))
 				ops++
 			}
